@@ -107,12 +107,13 @@ Print Assumptions C14_code_is_pinned.
    functions of format.go and reader.go the regenerated statement skeleton (one hex digit per
    statement) equals the number the model was transcribed from; every switch has the labels, every
    writeLines call the marker and side, every loop and guard of the readers the condition the
-   model has ([formatters_as_modelled], [readers_as_modelled] in Mdiff/FormatSkel.v); and with the
-   regenerated case labels and operators the body-line switch of read_uchunk_body and the command
-   switch of split_cmd compute exactly the transcription ([switches_as_transcribed]).  A guard
-   added inside a case, an early return, a reordered or dropped statement breaks this theorem. *)
+   model has ([formatters_as_modelled], [readers_as_modelled] in Mdiff/FormatSkel.v); and the
+   model's body-line switch (read_uchunk_body) and command switch (split_cmd) are, as functions,
+   the switches that the regenerated case labels, operators and letters build
+   ([switches_as_generated]).  A guard added inside a case, an early return, a reordered or
+   dropped statement, a changed label breaks this theorem. *)
 Theorem C14_skeleton_pinned :
-  skeleton_of_source = skeleton_of_model /\ formatters_as_modelled /\ readers_as_modelled /\ switches_as_transcribed.
+  skeleton_of_source = skeleton_of_model /\ formatters_as_modelled /\ readers_as_modelled /\ switches_as_generated.
 Proof. exact skeleton_pinned. Qed.
 Print Assumptions C14_skeleton_pinned.
 (* the body-line switch on a line "-- " (the deletion of a line whose text is "- ") and on "\ x" *)
